@@ -54,6 +54,7 @@ type NodeDiff struct {
 	Direct string   `json:"direct"`
 	Node   string   `json:"node"`
 	Safe   bool     `json:"safe"` // schema free of the shapes the known AssignNode defect needs
+	Map    bool     `json:"map"`  // schema has a typed map
 }
 
 const driverSrc = `package main
@@ -271,7 +272,7 @@ func Run(run string, schemas []*lib.SchTy, cases []*Case, rng *lib.Rng, nodeDiff
 				for _, c := range nc {
 					st.NodeRuns++
 					if c.Obs != direct[c.ID] {
-						diffs = append(diffs, NodeDiff{Case: []string{c.ID, "gennode", schemas[c.SI].Text(), string(c.Level), "node", c.V.Text(), direct[c.ID] + "#" + c.Obs}, Direct: direct[c.ID], Node: c.Obs, Safe: schemas[c.SI].AssignNodeSafe()})
+						diffs = append(diffs, NodeDiff{Case: []string{c.ID, "gennode", schemas[c.SI].Text(), string(c.Level), "node", c.V.Text(), direct[c.ID] + "#" + c.Obs}, Direct: direct[c.ID], Node: c.Obs, Safe: schemas[c.SI].AssignNodeSafe(), Map: schemas[c.SI].HasTypedMap()})
 					}
 				}
 			}
